@@ -288,7 +288,44 @@ def r6_single_writer(ctx):
     R.check(okh, "C04.R6", "writer-handle-passed", "the handle joined is the one of the spawned send_task", "graceful_shutdown is not given the JoinHandle of the spawned writer task", where(gs[0]) if gs else None)
 
 
-RULES = [r1_typestate, r2_closed_check_first, r3_identity, r4_close_gating, r5_unsubscribe_key, r6_single_writer]
+def r7_envelope_is_fresh(ctx):
+    """the notification envelope is built for *this* subscription at every send: what sub_message_to_json /
+    sub_err_to_json return is either the caller's complete message or a fresh serde_json::value::to_raw_value of a
+    Notification whose method is the `method` parameter and whose payload carries the `sub_id` parameter - never a value
+    that outlives the call (a cache shared by clones of the message would hand one subscription's envelope, with its id
+    and method name, to another subscription)"""
+    F, R = ctx.F, ctx.R
+    tr = ctx.tracer(follow_callers=False, follow_fields=False, inline_calls=False)
+    n = 0
+    for fn_, payload in (("sub_message_to_json", "SubscriptionPayload"), ("sub_err_to_json", "SubscriptionPayloadError")):
+        b = F.one(r"^jsonrpsee_core::server::subscription::%s$" % fn_)
+        R.fn(b)
+        n += 1
+        lv = tr.origins(b, {"cp": {"l": 0}})
+        bad = []
+        fresh = False
+        for l in lv:
+            if l.kind == "call" and re.search(r"^serde_json::value::to_raw_value$", l.detail["callee"] or "") and l.where == b.path:
+                fresh = True
+            elif l.kind == "field" and l.detail["idx"] == 1:
+                pass   # the Complete(msg) arm: the caller's own bytes
+            else:
+                bad.append(flow.leaf_str(l)[:80])
+        R.check(fresh and not bad, "C04.R7", "%s:envelope-built-per-call" % fn_, "%s returns a freshly serialised envelope (or the caller's complete message)" % fn_, "%s returns %s: the envelope is not (only) serialised from this call's subscription id and method - a value shared between calls carries another subscription's id and method name" % (fn_, bad or "no fresh serialisation"), "%s:%d" % (b.file, b.lo))
+        # the envelope's operands are this call's parameters
+        aggs = [st for blk in b.blocks for st in blk["st"] if st["s"] == "assign" and st["rv"]["k"] == "agg" and st["rv"].get("adt", "").endswith(payload)]
+        for st in aggs:
+            op = st["rv"]["ops"][st["rv"]["fields"].index("subscription")]
+            l2 = tr.origins(b, op)
+            R.check(bool(l2) and all(x.kind == "param" and x.detail["idx"] == 2 for x in l2), "C04.R7", "%s:payload-carries-own-id" % fn_, "the payload's subscription member is the sub_id parameter", "%s puts %s into the payload's subscription member" % (fn_, [flow.leaf_str(x) for x in l2]), "%s:%d" % (b.file, st["sp"][0]))
+        R.check(bool(aggs), "C04.R7", "%s:payload-built" % fn_, "the payload is built in %s" % fn_, "%s no longer builds a %s" % (fn_, payload), "%s:%d" % (b.file, b.lo))
+        for c in b.calls_to(r"Notification::<.*>::new$"):
+            l3 = tr.origins(b, c.args[0])
+            R.check(bool(l3) and all(x.kind == "param" and x.detail["idx"] == 3 for x in l3), "C04.R7", "%s:method-is-own" % fn_, "the notification's method is the method parameter", "%s names the notification %s" % (fn_, [flow.leaf_str(x) for x in l3]), where(c))
+    R.floor("C04.R7", n, 2, "notification envelope builders")
+
+
+RULES = [r1_typestate, r2_closed_check_first, r3_identity, r4_close_gating, r5_unsubscribe_key, r6_single_writer, r7_envelope_is_fresh]
 
 LEVEL_TEXT = (
     "Structural necessary conditions of the subscription notification contract decided from the type-checked program: "
